@@ -57,6 +57,14 @@ registry! {
     h_tls::h_tls_twin,
     h_fmt::h_fmt_forward,
     h_fmt::h_fmt_twin,
+    h_prog::h_prog_k3,
+    h_prog::h_prog_k4,
+    h_prog::h_prog_k5,
+    #[cfg(feature = "weak-ptrs")]
+    h_prog::h_prog_weak_k3,
+    #[cfg(feature = "weak-ptrs")]
+    h_prog::h_prog_weak_k4,
+    h_prog::h_prog_twin,
     #[cfg(feature = "cleaners")]
     h_clean::h_clean_n2,
     #[cfg(feature = "cleaners")]
